@@ -154,7 +154,7 @@ func runC10(c *core.Ctx) {
 	c.Floor("R10.1", 1)
 	c.Floor("R10.2", 1)
 	c.Floor("R10.3", 1)
-	c.Floor("R10.4", 2)
+	c.Floor("R10.4", 3)
 }
 
 func r10Rewind(c *core.Ctx, p *load.Program, sh *cacheShape, rule string) {
@@ -282,6 +282,55 @@ func r10Dir(c *core.Ctx, p *load.Program, sh *cacheShape) {
 		})
 		c.Check(ok, "R10.4", "cache.dir.ReadDir|lists-source", p.Pos(fn.Pos()), "entries come from the source file system",
 			"cache.dir.ReadDir does not list through the source file system: the cache only holds the files opened so far, its listing is not the source's")
+	}
+	// R10.4 (listing is the source's, now): every alternative of the listing a page is cut from is the result of the
+	// source ReadDir call of THIS call — a listing memoised in the file system value ("the source does not change") or in
+	// the handle answers with entries that were removed since, and keeps answering them
+	if fn := ms["ReadDir"]; fn != nil {
+		for _, w := range listingSlices(fn) {
+			bad := ""
+			var leaves func(v ssa.Value, d int, seen map[ssa.Value]bool)
+			leaves = func(v ssa.Value, d int, seen map[ssa.Value]bool) {
+				if v == nil || seen[v] || d > 8 {
+					return
+				}
+				seen[v] = true
+				switch x := v.(type) {
+				case *ssa.Phi:
+					for _, e := range x.Edges {
+						leaves(e, d+1, seen)
+					}
+					return
+				case *ssa.Slice:
+					leaves(x.X, d+1, seen)
+					return
+				case *ssa.UnOp:
+					if a, ok := x.X.(*ssa.Alloc); ok && x.Op == token.MUL {
+						stores, _ := ssax.CellStores(a)
+						for _, st := range stores {
+							leaves(st.Val, d+1, seen)
+						}
+						if len(stores) > 0 {
+							return
+						}
+					}
+				case *ssa.Extract:
+					if cl, ok := x.Tuple.(*ssa.Call); ok && ssax.CalleeIs(cl, mod, "ReadDir") && isLoadOfNamedField(ssax.Unwrap(cl.Call.Args[0]), sh.named, sh.srcField) {
+						return // the source's listing
+					}
+				case *ssa.Const:
+					if x.IsNil() {
+						return
+					}
+				}
+				if bad == "" {
+					bad = vname(v)
+				}
+			}
+			leaves(w.X, 0, map[ssa.Value]bool{})
+			c.Check(bad == "", "R10.4", "cache.dir.ReadDir|page-cut-from-this-call's-source-listing", p.Pos(w.Pos()), "every alternative of the paged listing is the source ReadDir of this call",
+				fmt.Sprintf("cache.dir.ReadDir cuts a page from a listing that, on one alternative (%s), is not the result of listing the source in this call (a memoised listing): entries removed from the source since keep being listed, new ones never appear — the cache is transparent for listings only while it asks the source every time", bad))
+		}
 	}
 	// R10.13 (= R16.12): the directory handle's cursor moves by the page returned, like the source's handle
 	if fn := ms["ReadDir"]; fn != nil {
